@@ -71,7 +71,17 @@ def main(argv=None):
         violations.append(path)
         print(f'VIOLATION property={prop} replay={path}')
         print('  case=' + lib.jkey(fc['case'])[:600])
-        for f in fc['failures'][:3]:
+
+        def _is_known(f):
+            for e in entries:
+                fn = getattr(mod, 'CLASSIFIERS', {}).get(e['classifier'])
+                try:
+                    if fn is not None and fn(fc['case'], f):
+                        return 1
+                except Exception:
+                    pass
+            return 0
+        for f in sorted(fc['failures'], key=_is_known)[:3]:  # failures no open finding explains come first
             print('  ' + json.dumps(f, default=repr)[:900])
     if violations:
         exit_code = 1
